@@ -90,6 +90,7 @@ SumPool == <<
     S(" ", <<"日本語 ä ß Σ">>),
     S(" ", <<"1h">>),                                 \* looks like a value
     S(" ", <<"- ?">>),
+    S(" ", <<"stray carriage return" \o CR, "and" \o CR \o CR>>),   \* CR inside the text (before a CRLF ending)
     S(" ", <<"caf" \o SymFF>>),                       \* a Latin-1 byte: invalid UTF-8 (opaque symbol)
     S(" ", <<"x" \o SymE4 \o SymB8, SymFF \o " y " \o SymNUL>>)   \* truncated multi-byte sequence, NUL
 >>
@@ -158,8 +159,14 @@ WellFormed(d) ==
     /\ \A k \in 1..(Len(d.recs) - 1) : Len(d.seps[k]) >= 1
 RECURSIVE AnyPUA(_)
 AnyPUA(t) == t # "" /\ (Ch(t, 1) \in PUASyms \/ AnyPUA(Drop(t, 1)))
+RECURSIVE AnyCR(_)
+AnyCR(t) == t # "" /\ (Ch(t, 1) = CR \/ AnyCR(Drop(t, 1)))
 HasOpaque(d) == \E k \in 1..Len(d.recs) : \E i \in 1..Len(d.recs[k].entries) :
-                   \E j \in 1..Len(d.recs[k].entries[i].s.lines) : AnyPUA(d.recs[k].entries[i].s.lines[j])
+                   \E j \in 1..Len(d.recs[k].entries[i].s.lines) :
+                       AnyPUA(d.recs[k].entries[i].s.lines[j]) \/ AnyCR(d.recs[k].entries[i].s.lines[j])
+(* a CR at the end of a line's text followed by an LF ending would read as a CRLF ending: not generated *)
+CRBeforeLF(d) == \E k \in 1..Len(d.recs) : d.recs[k].eol = LF /\ \E i \in 1..Len(d.recs[k].entries) :
+                    \E j \in 1..Len(d.recs[k].entries[i].s.lines) : EndsWith(d.recs[k].entries[i].s.lines[j], CR)
 HasLoose(d) == \E k \in 1..Len(d.recs) : \E i \in 1..Len(d.recs[k].entries) : d.recs[k].entries[i].v.loose
 
 (***************************************************************************)
